@@ -1,5 +1,5 @@
 """Which engines decide which property, and how many runs per tier."""
-from driver_main import Job, cargo_build
+from driver_main import Job, PluginJob, cargo_build
 
 COMMON_ASSUMPTIONS = [
     "seeded sampling, not enumeration: a clean batch is evidence, not proof",
@@ -120,6 +120,24 @@ PROPS = {
         "accept": lambda job, cls, site, msg: (cls in ("obj.result_mismatch", "obj.args_altered", "obj.call_count") and ("ir_" in site or "ira_" in site or "m_res" in site)) or cls.startswith("intres.") or job == "intres",
         "real": OBJ_REAL + ["cglue::result (IntError impls, into_int_out_result, from_int_result)"], "stub": OBJ_STUB, "assumptions": OBJ_ASSUME,
     },
+}
+
+
+MOD_STABLE = PluginJob(6000, 200000, "stable-release-plugin_debug-host")
+MOD_STABLE_RH = PluginJob(3000, 100000, "stable-release-plugin_release-host", host_release=True)
+MOD_NIGHTLY1 = PluginJob(0, 100000, "nightly-randomized-layout-1", toolchain="nightly", rustflags="-Zrandomize-layout -Zlayout-seed=1")
+MOD_NIGHTLY2 = PluginJob(0, 100000, "nightly-randomized-layout-2", toolchain="nightly", rustflags="-Zrandomize-layout -Zlayout-seed=2")
+ALL_JOBS += [MOD_STABLE, MOD_STABLE_RH, MOD_NIGHTLY1, MOD_NIGHTLY2]
+PROPS["C05"] = {
+    "jobs": [MOD_STABLE, MOD_STABLE_RH, MOD_NIGHTLY1, MOD_NIGHTLY2],
+    "accept": lambda job, cls, site, msg: cls != "ctx.clone_leak" and not cls.startswith("harness."),
+    "real": ["plugin module: cdylib built separately from the same corpus (own compiler invocation, optimisation level, in the thorough tier another compiler version with randomized repr(Rust) layout), own tagging global allocator",
+             "glibc dynamic loader (dlopen through libloading; the Library lives inside the reference-counted context, so the last release is dlclose)",
+             "host: objsim (generated glue compiled in the host, vtables and wrappers executed inside the plugin)"],
+    "stub": ["implementors report to the host through a C-ABI callback table (no Rust type is shared across the boundary)", "host-side un-erased twin as reference"],
+    "assumptions": OBJ_ASSUME + ["only boxed objects with the type-erased reference-counted context cross the boundary (what a plugin hands out)",
+                                 "glibc keeps the module mapped after dlclose when plugin code ran on a thread that registered thread-local destructors; the evidence reports how often the module was really unmapped",
+                                 "quick tier: stable release plugin x stable debug and release hosts; thorough adds nightly plugins with -Zrandomize-layout seeds 1 and 2"],
 }
 
 
